@@ -2,6 +2,7 @@
 #![allow(dead_code, unused_imports, clippy::all)]
 
 mod hx;
+mod num;
 mod sc;
 mod util;
 
@@ -92,6 +93,40 @@ fn main() {
         max_paths,
         stop_on_violation: false,
     };
+    if prop == "NUM" {
+        // numerics self-test listing (see num.rs): constants, then symbolic operands pinned by assumption
+        let mut lines: Vec<String> = vec![];
+        for symbolic in [false, true] {
+            num::OUT.lock().unwrap().clear();
+            let f = move || {
+                let i = hx::choose(num::ncases());
+                let pending = format!("{} cut", {
+                    let op = i % num::NOPS;
+                    let a = num::OPS[(i / num::NOPS) % num::OPS.len()];
+                    let b = num::OPS[i / num::NOPS / num::OPS.len()];
+                    format!("{}:{}:{}", op, a, b)
+                });
+                num::OUT.lock().unwrap().push((i, pending));
+                let r = num::case(i, symbolic);
+                let mut o = num::OUT.lock().unwrap();
+                if let Some(e) = o.iter_mut().rev().find(|e| e.0 == i) {
+                    e.1 = r;
+                }
+            };
+            let st = sym::explore(&cfg, &f);
+            let mut o = num::OUT.lock().unwrap().clone();
+            o.sort();
+            o.dedup_by_key(|e| e.0);
+            eprintln!("symx NUM symbolic={}: cases={} paths={} queries={}", symbolic, o.len(), st.paths + st.paths_cut + st.paths_infeasible, st.queries);
+            lines.extend(o.into_iter().map(|(_, l)| format!("{} {}", if symbolic { "S" } else { "C" }, l)));
+        }
+        let text = lines.join("\n");
+        match out {
+            Some(p) => std::fs::write(p, text).unwrap(),
+            None => println!("{}", text),
+        }
+        return;
+    }
     let mut scs = scenarios(&prop, &tier);
     if scs.is_empty() {
         eprintln!("symx: no scenarios for {:?}", prop);
@@ -161,6 +196,17 @@ fn main() {
     // symx-replay <PROP> --replay <file.json>
     let args: Vec<String> = std::env::args().collect();
     let prop = args.get(1).cloned().unwrap_or_default();
+    if prop == "NUM" {
+        hx::install_panic_hook();
+        for i in 0..num::ncases() {
+            let r = std::panic::catch_unwind(|| num::case(i, false));
+            match r {
+                Ok(l) => println!("{}", l),
+                Err(_) => println!("{} panic", i),
+            }
+        }
+        return;
+    }
     let file = arg(&args, "--replay").expect("--replay <file>");
     let doc: Value = serde_json::from_str(&std::fs::read_to_string(&file).unwrap()).unwrap();
     let scen = doc["scenario"].as_str().unwrap_or("").to_string();
